@@ -128,7 +128,11 @@ def r_bracket(F, R, cat=None, only=None):
                 continue  # forwarded / delegated: the callee is its own instance
             n += 1
             R.saw(b)
-            if t[0] == "agg" and t[1] == "tuple" and len(t[2]) == 2 and t[2][0] == t[2][1] and \
+            if t[0] == "agg" and t[1] == "tuple" and len(t[2]) == 2 and t[2][0] == t[2][1] and o[0][0] == "agg" and \
+                    empty_item_bracket(b, ctx, effs, t[2][0], o[0][1]):
+                R.check("R-BRACKET", b.label(), True, construct="an empty item is the empty range at the current end",
+                        where=where, detail="(end, end) with end = %s, returned only for an empty item and before any append" % show(t[2][0])[:60])
+            elif t[0] == "agg" and t[1] == "tuple" and len(t[2]) == 2 and t[2][0] == t[2][1] and \
                     t[2][0][0] == "place":
                 check_cursor_bracket(R, b, ctx=ctx, root=o[0])
             elif t[0] == "agg" and t[1] == "tuple" and len(t[2]) == 2:
@@ -146,6 +150,40 @@ def r_bracket(F, R, cat=None, only=None):
         R.saw(b)
         check_cursor_bracket(R, b)
     R.floor("R-BRACKET", "bracket sites", n, 15 if not only else 1)
+
+
+def empty_item_bracket(b, ctx, effs, x, agg_bb):
+    """`if item.is_empty() { return (end, end) }`: both components are the same current-length
+    measure of self's storage, the pair is built under a fact that the item is empty, and no
+    append can have happened before it"""
+    from expr import nobb, reach_strict
+    alts = x[1] if x[0] == "phi" else (x,)
+    for a in alts:
+        a = nobb(a)
+        is_cursor = a[0] == "place" and a[2] == ("arg", 1)
+        is_len = (a[0] == "call" and a[1][1] == "len" and a[2] and a[2][0][0] == "place" and a[2][0][2] == ("arg", 1)) or \
+            (a[0] in ("len", "un") and any(nd[0] == "place" and nd[2] == ("arg", 1) for nd in walk(a)))
+        if not (is_cursor or is_len):
+            return False
+    item = ("place", b.key, ("arg", 2), ())
+    empty = False
+    for f in facts_at(ctx, agg_bb):
+        x1 = nobb(f[1]) if isinstance(f[1], tuple) else None
+        if f[0] == "truthy" and f[2] is True and x1 and x1[0] == "call" and x1[1][1] == "is_empty" and x1[2] and \
+                any(nd == item for nd in walk(x1[2][0])):
+            empty = True
+        if f[0] == "Eq" and x1 is not None and len(f) > 2 and isinstance(f[2], tuple):
+            x2 = nobb(f[2])
+            for (u, v) in ((x1, x2), (x2, x1)):
+                if v == ("const", "0") and any(nd == item for nd in walk(u)) and \
+                        (u[0] in ("len", "un") or (u[0] == "call" and u[1][1] == "len")):
+                    empty = True
+    if not empty:
+        return False
+    for e in effs:
+        if e.cls == "append" and e.ctx is ctx and (e.top_bb == agg_bb or agg_bb in reach_strict(b, e.top_bb)):
+            return False
+    return True
 
 
 def region_index_type(F, adt):
@@ -174,6 +212,11 @@ def load_site(b, ctx, op, depth=0):
             return None
         bi0, si0 = defs0[0][2]
         rv0 = ctx.org.stmt(bi0, si0)["rv"]
+        if rv0["k"] == "use" and rv0["op"]["k"] in ("copy", "move") and \
+                not any(e["k"] == "deref" for e in rv0["op"]["place"]["p"]):
+            # the aggregate was moved from another local (`let span = helper(..); (span.start, ..)`)
+            src = rv0["op"]["place"]
+            return load_site(b, ctx, {"k": "copy", "place": {"l": src["l"], "p": list(src["p"]) + list(pl["p"])}}, depth + 1)
         k = pl["p"][0].get("i")
         if rv0["k"] == "aggregate" and isinstance(k, int) and k < len(rv0["ops"]):
             o2 = rv0["ops"][k]
@@ -524,6 +567,10 @@ def column_bound_foreign(F, b, ctx, creates):
                 for side in (f[1], f[2]):
                     sides.extend(side[1] if side[0] == "phi" else [side])
             for side in sides:
+                for nd in walk(nobb(side)):
+                    if nd and nd[0] == "call" and nd[1][1] == "capacity" and nd[2] and nd[2][0][0] == "place" and \
+                            nd[2][0][1] == b.key and nd[2][0][2] == ("arg", 2):
+                        return "column count compared with the item's capacity (%s), which is not the row's length" % show(nd)[:60]
                 t = nobb(norm_len(side))
                 if t[0] != "len" or t[1][0] != "place" or t[1][1] != b.key or t[1][2] != ("arg", 2):
                     continue
@@ -590,6 +637,12 @@ def r_columns(F, R, cat=None):
                 # `for _ in self.inner.len()..n { create }`: one column per missing position
                 if f[0] == "variant" and range_from_inner_len(f[1]) is not None:
                     guard_ok = True
+            # `(self.inner.len()..n).for_each(|_| create)`: the same loop as an iterator pipeline
+            if e.ctx is not ctx and e.ctx.parent is not None and e.ctx.consumer and \
+                    e.ctx.consumer[1][1] in ("for_each", "fold", "try_for_each", "map", "extend"):
+                pt_ = e.ctx.parent.body.term(e.ctx.consumer[0])
+                if pt_["k"] == "call" and pt_["args"] and range_from_inner_len(operand_tree(e.ctx.parent, pt_["args"][0])) is not None:
+                    guard_ok = True
         # ... and exactly as many as the row is long: the bound the column count is compared with is
         # the item's own length, not the width of wherever the item came from
         # every form creates a missing column the same way: empty, by Default (a column built from
@@ -603,6 +656,16 @@ def r_columns(F, R, cat=None):
             if odd:
                 R.check("R-COLUMNS", b.label(), False, construct="missing columns are created empty, like in the sibling forms",
                         where=e.where(), detail="this form creates a column as %s; the other push forms use Default::default()" % show(odd[0])[:80])
+        # one column per missing position: the creation repeats (a loop, or the per-cell closure /
+        # loop of the lazy form); a single conditional creation adds at most one column and the
+        # zip over the columns silently drops the rest of a wider row
+        from expr import in_loop
+        for e in creates:
+            repeated = in_loop(e.ctx.body, e.bb) or e.ctx is not ctx
+            if not repeated:
+                R.check("R-COLUMNS", b.label(), False, construct="a column is created for every missing position",
+                        where=e.where(), detail="the creation of a missing column is not repeated (no loop around it, not per cell): "
+                        "a row two or more cells wider than the region loses its tail")
         width_bad = column_bound_foreign(F, b, ctx, creates)
         if width_bad:
             R.check("R-COLUMNS", b.label(), False, construct="columns are created up to the row's own length",
